@@ -62,6 +62,11 @@ theorem skipNuls_of_drop {m : Bytes} {p j : Nat} {c c' : UInt8} {r : Bytes}
     simpa using this
   simp [skipNuls, this, nonNulIdx_zeros j c r hc]; omega
 
+/-- `while(*p) ++p;` when the memory at `p` is a NUL-free run followed by a NUL -/
+theorem scanToNul_of_drop {m : Bytes} {p : Nat} {s r : Bytes}
+    (h : m.drop p = s ++ 0 :: r) (hs : NoNul s) : scanToNul m p = some (p + s.length) := by
+  simp [scanToNul, h, nulIdx_append s r hs]; omega
+
 theorem padStr_eq (s : Bytes) : padStr s = s ++ 0 :: zeros (3 - s.length % 4) := by
   have : 4 - s.length % 4 = (3 - s.length % 4) + 1 := by omega
   rw [padStr, this, zeros_succ]
@@ -112,17 +117,10 @@ theorem argSize_enc {m : Bytes} {p : Nat} {t : UInt8} {a : Arg} {R : Bytes}
   | str s =>
     obtain ⟨hr, ht⟩ := kind_str t hk
     have hs : NoNul s := hwf
-    have hq : ∃ q, skipToNul m p = some q ∧ q - p + (4 - (q - p) % 4) = (padStr s).length := by
-      cases s with
-      | nil =>
-        refine ⟨p + 1 + 0, skipToNul_of_drop (c := 0) (s := []) (r := zeros 2 ++ R) ?_ (by simp [NoNul]), ?_⟩
-        · rw [hd]; simp [encArg, padStr, zeros, List.replicate]
-        · simp [padStr]
-      | cons c s' =>
-        refine ⟨p + 1 + s'.length, skipToNul_of_drop (c := c) (s := s')
-          (r := zeros (3 - (c :: s').length % 4) ++ R) ?_ hs.tail, ?_⟩
-        · rw [hd, encArg, padStr_eq]; simp
-        · rw [padStr_length]; simp only [List.length_cons]; omega
+    have hq : ∃ q, scanToNul m p = some q ∧ q - p + (4 - (q - p) % 4) = (padStr s).length := by
+      refine ⟨p + s.length, scanToNul_of_drop (r := zeros (3 - s.length % 4) ++ R) ?_ hs, ?_⟩
+      · rw [hd, encArg, padStr_eq]; simp
+      · rw [padStr_length]; omega
     obtain ⟨q, hq1, hq2⟩ := hq
     simp only [encArg] at hsz ⊢
     rcases ht with rfl | rfl <;> simp [argSize, hasReserved, hq1, hq2, u32_id hsz]
@@ -249,29 +247,10 @@ theorem argBase_enc (m : Msg) (rest : Bytes) (hwf : m.WF) :
   have ht := drop_tags m rest
   have hB : Boff m = m.tags.length + 1 + (4 - (m.tags.length + 1) % 4) := by
     simp [Boff, padStr_length]
-  cases hts : m.tags with
-  | nil =>
-    rw [hts] at ht hB
-    have : skipToNul (Spec.encode m ++ rest) (Aoff m + 1) = some (Aoff m + 1 + 1 + 0) := by
-      have h0 : (Spec.encode m ++ rest).drop (Aoff m + 1) =
-          0 :: ([] ++ 0 :: (zeros 1 ++ (m.args.flatMap encArg ++ rest))) := by
-        rw [ht]; simp [zeros, List.replicate]
-      exact skipToNul_of_drop h0 (by simp [NoNul])
-    simp only [argBase, this, hB]
-    simp
-  | cons c s =>
-    rw [hts] at ht hB
-    have hnn : NoNul s := by
-      intro x hx
-      have := hwf.tags_ok x (by rw [hts]; exact List.mem_cons_of_mem _ hx)
-      exact (isTag_ne_zero x this).1
-    have : skipToNul (Spec.encode m ++ rest) (Aoff m + 1) = some (Aoff m + 1 + 1 + s.length) := by
-      have h0 : (Spec.encode m ++ rest).drop (Aoff m + 1) = c :: (s ++ 0 ::
-          (zeros (3 - ((c :: s).length + 1) % 4) ++ (m.args.flatMap encArg ++ rest))) := by
-        rw [ht]; simp
-      exact skipToNul_of_drop h0 hnn
-    simp only [argBase, this, hB, List.length_cons]
-    simp; omega
+  have hnn : NoNul m.tags := fun x hx => (isTag_ne_zero x (hwf.tags_ok x hx)).1
+  simp only [argBase, scanToNul_of_drop ht hnn, hB]
+  simp; omega
+
 /-! ### walking the type tags -/
 
 theorem isBracket_iff (t : UInt8) : isBracket t = true ↔ (t = 91 ∨ t = 93) := by
